@@ -152,6 +152,9 @@ def run(ctx: Ctx) -> None:
     if sites < 4:
         raise AnalysisError(f"R12.wb: only {sites} cache.write_block site(s) in the write-back system")
 
+    from .c03 import writeback_rule
+    writeback_rule(ctx, r)
+
     from ..cachesetspec import dirty_rule
     dirty_rule(ctx, "R12.set")
     r = ctx.rule("R12.set", "")
